@@ -5,8 +5,8 @@
  * answer was delivered).  The model below is written from RFC 7873/9018 and the statement, not from
  * ares_cookie.c. */
 
-enum { CKB_VALID = 0, CKB_ROTATING, CKB_NONE, CKB_WRONG_CLIENT, CKB_SHORT, CKB_LONG, CKB_BADCOOKIE_ONCE, CKB_BADCOOKIE_ALWAYS, CKB__COUNT };
-static const char *const ckb_names[CKB__COUNT] = { "valid", "rotating", "none", "wrong-client", "short", "long", "badcookie-once", "badcookie-always" };
+enum { CKB_VALID = 0, CKB_ROTATING, CKB_NONE, CKB_WRONG_CLIENT, CKB_SHORT, CKB_LONG, CKB_BADCOOKIE_ONCE, CKB_BADCOOKIE_ALWAYS, CKB_TINY, CKB__COUNT };
+static const char *const ckb_names[CKB__COUNT] = { "valid", "rotating", "none", "wrong-client", "short", "long", "badcookie-once", "badcookie-always", "tiny-server-part" };
 
 typedef struct {
   int      behaviour;
@@ -30,7 +30,7 @@ typedef struct {
 static ck_srv_t cks[SIM_MAXSRV];
 static int      ck_state_changes;
 static uint32_t ck_timers_crossed;
-static uint8_t  ck_resp_kind[SIM_MAXPKT];   /* serial-1 -> 1 valid, 2 no cookie, 3 wrong client, 4 short, 5 long, 6 badcookie(valid cookie) */
+static uint8_t  ck_resp_kind[SIM_MAXPKT];   /* serial-1 -> 1 valid, 2 no cookie, 3 wrong client, 4 short, 5 long, 6 badcookie(valid cookie), 7 malformed length 9-15 */
 static uint8_t  ck_resp_server[SIM_MAXPKT][32];
 static uint8_t  ck_resp_server_len[SIM_MAXPKT];
 static uint8_t  ck_resp_client[SIM_MAXPKT][8];
@@ -112,6 +112,12 @@ static int ck_server_hook(int srvidx, const sdns_query_t *q, int is_tcp, int *ac
       memcpy(ck, q->cookie, 8);
       *cklen = 8; /* client part only: no server cookie */
       break;
+    case CKB_TINY:
+      /* right client part followed by 1-7 octets: not a COOKIE option RFC 7873 knows (a server cookie has 8-32 octets) */
+      memcpy(ck, q->cookie, 8);
+      memset(ck + 8, 0x44, 8);
+      *cklen = 9 + (size_t)((h >> 8) % 7);
+      break;
     case CKB_LONG:
       memcpy(ck, q->cookie, 8);
       memset(ck + 8, 0x66, 32);
@@ -157,6 +163,8 @@ static void ck_classify(uint32_t serial, const sdns_query_t *q, const uint8_t *c
     kind = 3;
   } else if (cklen == 8) {
     kind = 4;
+  } else if (cklen < 16) {
+    kind = 7; /* malformed: carries no server cookie a client could store or echo */
   } else {
     kind = (action == SA_BADCOOKIE) ? 6 : 1;
     memcpy(ck_resp_client[serial - 1], ck, 8);
@@ -344,7 +352,7 @@ static void ck_on_read(int fd, uint32_t serial)
       if (kind == 3) {
         must_ignore = 1;
       }
-      if ((kind == 2 || kind == 4) && c->proven && (c->t_first_bad < 0 || sim_now_us - c->t_first_bad < 120 * 1000000LL) &&
+      if ((kind == 2 || kind == 4 || kind == 7) && c->proven && (c->t_first_bad < 0 || sim_now_us - c->t_first_bad < 120 * 1000000LL) &&
           memcmp(tx->cookie, c->client, 8) == 0) {
         must_ignore = 1;
       }
@@ -385,6 +393,14 @@ static void ck_on_read(int fd, uint32_t serial)
   /* no cookie / client-only / wrong client part */
   if (kind == 3) {
     return; /* wrong client part: spoof, teaches nothing */
+  }
+  if (kind == 7) {
+    /* malformed option: to be discarded (RFC 7873 5.3) whatever the state; it says nothing about the server having
+     * stopped supporting cookies, so it does not start the regression clock */
+    if (c->proven && memcmp(tx->cookie, c->client, 8) == 0) {
+      ck_delivered_while_proven[serial - 1] = 1;
+    }
+    return;
   }
   if (c->proven) {
     if (c->t_first_bad < 0) {
@@ -432,7 +448,7 @@ static void mon_cookie_tok_done(app_tok_t *t)
       /* 40 octets is the maximum legal length: deliverable */
       continue;
     }
-    if ((kind == 2 || kind == 4) && ck_delivered_while_proven[s - 1]) {
+    if ((kind == 2 || kind == 4 || kind == 7) && ck_delivered_while_proven[s - 1]) {
       vh_violation("cookie:cookieless-delivered-while-proven",
                    "request '%s' was answered by a response without a server cookie although server %d had proven cookie support and the regression period had not passed",
                    t->name, pi->srv);
@@ -453,6 +469,9 @@ static void gen_cookie(vh_rng_t *rng)
   sim_cfg.nonblocking_flag = 0;
   sim_cfg.one_fd_per_call  = 1;
   sim_fifo_events          = 1;
+  /* socket functions without the optional getsockname member (and the older ares_set_socket_functions() has none):
+   * the library cannot learn its source address, which is no reason for the cookie to change */
+  sim_cfg.have_getsockname = vh_chance(rng, 5, 6);
   for (i = 0; i < sim_nsrv; i++) {
     vsrv_t *s = &sim_srv[i];
     memset(s->w_udp, 0, sizeof(s->w_udp));
